@@ -295,6 +295,13 @@ func stringVariants(v string) []variant {
 		{"long", v + strings.Repeat("0", 40)}, {"empty", ""}, {"inner-colon", v + ":x"}, {"inner-double", v + "--x"},
 		{"newline", v + "\n"}, {"unicode", v + "é"}, {"plus", v + "+x"}, {"underscore", v + "_x"},
 	}
+	if strings.ContainsAny(v, ".-/") {
+		// the separators of a formatted code replaced by white space
+		rep := func(by string) string {
+			return strings.NewReplacer(".", by, "-", by, "/", by).Replace(v)
+		}
+		out = append(out, variant{"sep-tab", rep("\t")}, variant{"sep-two-spaces", rep("  ")}, variant{"sep-space", rep(" ")}, variant{"sep-newline", rep("\n")})
+	}
 	switch {
 	case reUUID.MatchString(v):
 		out = append(out, variant{"uuid-braced", "{" + v + "}"}, variant{"uuid-urn", "urn:uuid:" + v},
